@@ -332,7 +332,7 @@ GLOBAL_ASSUMPTIONS = [
     'A-clone: derived Clone returns a structurally equal value (vstd `cloned` + axioms for the crate types)',
     'machine integers are NOT treated as mathematical: every + - * / % and narrowing is checked for overflow by Verus',
     'the extracted text is checked by Verus\'s rustc 1.98.1 front end; the repository builds with its own stable toolchain (same source text)',
-    'rewrites R2 (rand imports -> stub module with assumed contracts), R3 (for+continue desugaring), R4 (compound assignment expansion), R5 (reference patterns) are applied mechanically; see DESIGN.md 2.1',
+    'rewrites R1 (call through the instruction table -> wrapper, A-dispatch), R2 (rand imports -> stub module with assumed contracts), R3 (for+continue desugaring), R4 (compound assignment expansion), R5 (reference patterns), R6 (reference comparison), R7 (`as f32` / `f32 as usize` / PI -> wrapper functions whose bodies are the original expressions; results uninterpreted), DETRAIT are applied mechanically; counts under coverage.extraction; see DESIGN.md I.2',
 ]
 
 
